@@ -210,6 +210,34 @@ def c14(res, tier, seed):
                     calls.append(("math.%s(%d, %d)" % (fn, o, l), {"fn": fn, "o": o, "l": l, "type": "i" if fn == "mode" else "f", "range": True}))
                 else:
                     calls.append(("hash.%s(%d, %d)" % (fn, o, l), {"fn": fn, "o": o, "l": l, "type": "s" if fn in ("md5", "sha1", "sha256") else "i", "range": True}))
+        bgrid = (not grid) and si < (11 + 12) * (1 if tier == "quick" else 4)
+        if bgrid:
+            # systematic part for several blocks: one function x every range that starts at / next to a block start and ends at / next
+            # to a block end, over blocks that touch, blocks with a gap between them, and both (the range walk of hash.c / math.c)
+            n = 14
+            data = bytes(r.choice([0x61, 0x62, 0x00, 0xff, 0x41, 0x20, 0x7a, r.randrange(256)]) for _ in range(n))
+            layout = ["touch+gap", "gap+touch", "gap+gap"][si % 3]
+            sizes = [4, 6, 4] if si % 2 else [5, 3, 6]
+            gaps = {"touch+gap": [0, r.choice([1, 40])], "gap+touch": [r.choice([1, 7]), 0], "gap+gap": [3, 48]}[layout]
+            blocks, acc, doff = [], r.choice([0, 0, 16]), 0
+            for i, sz in enumerate(sizes):
+                base = acc + (gaps[i - 1] if i else 0)
+                blocks.append({"base": base, "size": sz, "doff": doff}); acc = base + sz; doff += sz
+            spec = ",".join("%d@%d" % (b["size"], b["base"]) for b in blocks)
+            fn = ["md5", "sha1", "sha256", "crc32", "checksum32", "mean", "entropy", "count"][si % 8]
+            starts = sorted({x for b in blocks for x in (b["base"], b["base"] + 1, b["base"] + b["size"] - 1)})
+            ends = sorted({x for b in blocks for x in (b["base"] + b["size"], b["base"] + b["size"] - 1, b["base"] + b["size"] + 1, b["base"] + 1)})
+            calls = []
+            for o in starts:
+                for e in ends:
+                    if e >= o and (tier != "quick" or r.random() < 0.55 or e in [b["base"] + b["size"] for b in blocks]):
+                        l = e - o
+                        if fn == "count":
+                            calls.append(("math.count(%d, %d, %d)" % (data[0], o, l), {"fn": "count", "byte": data[0], "o": o, "l": l, "type": "i", "range": True}))
+                        elif fn in ("mean", "entropy"):
+                            calls.append(("math.%s(%d, %d)" % (fn, o, l), {"fn": fn, "o": o, "l": l, "type": "f", "range": True}))
+                        else:
+                            calls.append(("hash.%s(%d, %d)" % (fn, o, l), {"fn": fn, "o": o, "l": l, "type": "s" if fn in ("md5", "sha1", "sha256") else "i", "range": True}))
         src = PRE + "\n".join('rule c%d { condition: console.log("c%d=", %s) }' % (i, i, txt) for i, (txt, d) in enumerate(calls))
         lines += ["note s%d" % si, "compiler 0", "add 0 - " + yv.hx(src.encode("latin-1")), "getrules 0 0", "cdestroy 0", "scanner 0 0", "data 1 " + yv.hx(data)]
         lines.append("scan 0 1 %s - -" % (("blocks " + spec) if spec else "mem -"))
